@@ -56,6 +56,8 @@ type scripted struct {
 	inst *env.Instance
 	far  *m.Address
 	next int // index of the next message of the router under test to read
+	// age: the request is dated this far in the past (a genuine request of an earlier connection, replayed)
+	age time.Duration
 }
 
 func prefixed(d []byte) []byte {
@@ -101,7 +103,7 @@ func (s *scripted) sendRequest(body any) error {
 	}
 	defer f.ReturnToPool()
 	f.SetTTL(0)
-	f.SetSequenceTime(time.Now().Round(time.Millisecond).Add(-time.Millisecond))
+	f.SetSequenceTime(time.Now().Round(time.Millisecond).Add(-time.Millisecond).Add(-s.age))
 	if err := f.SignRaw(id.PrivateKey); err != nil {
 		return err
 	}
@@ -559,5 +561,69 @@ func pingThenImpostor(res *core.Result, r *rand.Rand) {
 		res.Count("ping_then_impostor_refused", 1)
 		res.Case(fmt.Sprintf("scripted|ping-then-impostor|%d", round), true)
 		time.Sleep(3 * time.Millisecond)
+	}
+}
+
+// staleRequest: the peer completes a genuine handshake with the router under test (positive control), the link
+// is closed, and then requests of that same peer arrive that are genuine but old - dated minutes, hours, days or
+// a year before the handshake the router has just seen, as a recording of an earlier connection would be. The
+// router must abort at that message (at most an error notice follows) and register nothing, however old it is.
+func staleRequest(res *core.Result, r *rand.Rand) {
+	idV := env.NewIdentity(r, nil)
+	victim := wire.NewRouter(idV, config.Router{Universe: "c04-stale"})
+	peer := env.NewBareInstance(env.NewIdentity(r, nil), nil)
+	linked, detail, ok := scriptedHandshake(res, victim, idV, peer, "c04-stale", false)
+	if !ok || !linked {
+		res.Count("stale_request_scenarios_unusable", 1)
+		res.SetExtra("stale_request_unusable", detail)
+		return
+	}
+	for _, age := range []time.Duration{time.Second, 59 * time.Minute, time.Hour + time.Second, 2 * time.Hour, 25 * time.Hour, 400 * 24 * time.Hour} {
+		time.Sleep(3 * time.Millisecond)
+		w := wire.New()
+		baseLinks := victim.Inst.PeeringV.LinkCnt()
+		done := make(chan wire.SetupResult, 1)
+		go func() {
+			l, err := victim.Inst.PeeringV.VerifSetupLink(w.B, wire.URL, false)
+			done <- wire.SetupResult{Link: l, Err: err, Done: true}
+		}()
+		s := &scripted{w: w, inst: peer, far: idV, age: age}
+		md, got := s.read(done, 5*time.Second)
+		var reqV pReq
+		if !got || cbor.Unmarshal(md, &reqV) != nil {
+			w.A.Close()
+			w.B.Close()
+			<-done
+			res.Count("stale_request_scenarios_unusable", 1)
+			continue
+		}
+		_ = s.sendRequest(&pReq{V: "v0.0.0", U: "c04-stale", A: peer.IdentityV.PublicAddress, C: core.RandBytes(r, 32), LV: 1, TMTU: 9000})
+		continued := false
+		if md, got = s.read(done, 2*time.Second); got {
+			var respV pResp
+			if cbor.Unmarshal(md, &respV) != nil || respV.Err == "" {
+				continued = true
+			}
+		}
+		w.A.Close()
+		w.B.Close()
+		var sr wire.SetupResult
+		select {
+		case sr = <-done:
+		case <-time.After(15 * time.Second):
+			res.Inconcl("stale request: setup did not return")
+			return
+		}
+		wit := map[string]any{"age": age.String(), "case_id": "stale-request"}
+		if continued {
+			res.Violate("handshake-continued-after-replay:old-request", fmt.Sprintf("a genuine request of a known peer dated %s before its last accepted handshake was not refused: the router answered it with its response", age), wit)
+			return
+		}
+		if sr.Err == nil || sr.Link != nil || victim.Inst.PeeringV.LinkCnt() > baseLinks {
+			res.Violate("link-registered-after-fault:old-request", fmt.Sprintf("a genuine request of a known peer dated %s before its last accepted handshake led to a completed setup (err=%v)", age, sr.Err), wit)
+			return
+		}
+		res.Count("stale_requests_refused", 1)
+		res.Case("stale-request|"+age.String(), true)
 	}
 }
